@@ -46,6 +46,19 @@ fn cdf(lambda: f64, x: f64) -> f64 {
     (-(lambda * x)).exp_m1() / (-lambda).exp_m1()
 }
 
+/// the fixed rates plus seeded ones, log-uniform over [1e-4, 40] (a rate-dependent branch between two grid values would otherwise never run)
+pub fn lambdas_seeded(seed: u64, n: usize) -> Vec<(String, f64)> {
+    let mut v = lambdas();
+    let mut r = rng_from(mix(&[seed, 0xC16]));
+    for _ in 0..n {
+        use rand::Rng as _;
+        let l = 10f64.powf(r.random_range(-4.0..1.6));
+        let l = f64::from_bits(l.to_bits() & !0xffff_ffff);
+        v.push((format!("{:e}", l), l));
+    }
+    v
+}
+
 pub fn lambdas() -> Vec<(String, f64)> {
     let mut v = vec![("1e-9".to_string(), 1e-9), ("1e-6".to_string(), 1e-6), ("1e-3".to_string(), 1e-3)];
     for m in [2u64, 3, 10, 100, 10_000, 1_000_000] {
@@ -58,10 +71,11 @@ pub fn lambdas() -> Vec<(String, f64)> {
 }
 
 pub fn run(rep: &mut Report) {
-    rep.rule = "per rate lambda (1e-9 .. 30, including ln(m/(m-1)) for the m used by ProbMinHash3): N samples from the real sampler driven by Xoshiro256++; every sample range-checked; sqrt(N)*KS distance and a 64-bin chi-square on F(x); first-try acceptance fraction against 1/c1 = lambda/(e^lambda-1) measured by counting generator words. Scripted generators replay extreme words (0, MAX, single bits, top-of-interval) before falling back. distinct_nontrivial counts distinct sample values observed in (0,1) (bit patterns), measured on a subsample".into();
+    rep.rule = "per rate lambda (1e-9 .. 30, including ln(m/(m-1)) for the m used by ProbMinHash3, plus 8 / 60 seeded rates log-uniform over [1e-4, 40]): N samples from the real sampler driven by Xoshiro256++; every sample range-checked; sqrt(N)*KS distance and a 64-bin chi-square on F(x); first-try acceptance fraction against 1/c1 = lambda/(e^lambda-1) measured by counting generator words. Scripted generators replay extreme words (0, MAX, single bits, top-of-interval) before falling back. distinct_nontrivial counts distinct sample values observed in (0,1) (bit patterns), measured on a subsample".into();
     let n: u64 = rep.tier.pick(1_000_000, 40_000_000);
     let nchunks = 256u64;
-    for (li, (name, lambda)) in lambdas().into_iter().enumerate() {
+    let nseeded = rep.tier.pick(8, 60);
+    for (li, (name, lambda)) in lambdas_seeded(rep.seed, nseeded).into_iter().enumerate() {
         let cell = format!("lambda={}", name);
         if !rep.want(&cell) {
             continue;
